@@ -15,10 +15,21 @@
                                                      which splitFunc is consulted (= from the segmentation)
      C01_scan                                    (c) bufio.Scanner.Scan, for every reader script, cuts tokens
                                                      from the front of the unconsumed input
-   PROVED IN PART: C01_tokens_partial            (c) the scanner-free composition, streams without leading BOM
-   NOT PROVED (statements below as comments): C01_read, C01_connection, split_stable in its sharp form. *)
+     C01_scan_which                              (c) WHICH token it is (splitFunc on a prefix of at most B bytes) and when
+                                                     ErrTooLong is reported
+     C01_parser_fields                           (d) Parser.Next over the scanner's tokens hands out the fields of lines that
+                                                     interpret to Whatwg.interp of the stream (incl. the BOM wrapper)
+     C01_read, C01_connection, C01_read_any_id   (d) END TO END: read_run = firstn' stop (vis (interp mode id (concat chunks) e))
+                                                     for every configuration, reader script, ending, initial ID and stop
+                                                     position, whenever every group fits the limit (fitsb) - streams with a
+                                                     leading BOM included
+   Kept from the earlier state: C01_tokens_partial (the scanner-free composition without BOM; now a special case).
+   NOT PROVED: split_stable in its sharp form (not needed: C01_spec_toks).
+   The hypothesis fitsb is the limit of C20 (see props/C20.v for what happens beyond it); ending_ok excludes a
+   reader whose ERROR is io.EOF itself. *)
 From GoSse Require Import Base Lines FieldParser Whatwg WhatwgLines Split Scanner Reader ReadLoop Yields
-     LineStepProofs ReadLoopProofs SplitProofs ScannerProofs PathProofs FieldLinesProofs RunParse.
+     LineStepProofs ReadLoopProofs SplitProofs ScannerProofs PathProofs FieldLinesProofs ParserSizeProofs RunParse
+     GroupProofs ScanMoreProofs ParserFieldsProofs ParserTopProofs TooLongProofs.
 Local Open Scope nat_scope.
 
 (* (a1) One line: FieldParser.scan_segment followed by the switch of read() changes the loop's variables
@@ -105,21 +116,9 @@ Theorem C01_scan :
   forall B st s r, sc_inv B s r -> scan_post B st s r (scan parser_split st s r).
 Proof. exact scan_spec. Qed.
 
-(* (c2) PARTIAL.  Scanner-free composition: for a stream without a leading BOM, however it is tokenised, the read
-   loop fed with the fields of the tokens' lines yields the specification.
-   Full statements, not proved:
-     C01_read       : forall bc chunks e stop, ending_ok e -> fitsb (bound_of EntryRead bc) (concat chunks) = true ->
-                      fst (fst (read_run EntryRead bc [] chunks e stop))
-                      = firstn' stop (vis false (interp gosse_read [] (concat chunks) e))
-     C01_connection : the same with EntryConn, gosse_conn, vis true, any initial last event ID.
-   Missing lemma (name: parser_fields): "pf_run (make_parser en bc (mkrd chunks e 0)) (fields_of LS) (end_err tl e)
-   for a tokenisation toks (strip_bom' (concat chunks)) LS tl - the first token's BOM removed iff no byte was
-   skipped before it (the D7 wrapper, upd_split) - or, with ErrTooLong, the fields of a prefix".  It is the glue
-   of Reader.parser_next_fuel between C01_field_parser_lines (per token) and C01_scan (per Scan call); with it,
-   C01_read_loop_is_fold, C01_spec_toks and C01_read_loop_spec compose to C01_read / C01_connection.  The
-   scanner's buffer management is already discharged by C01_scan.  Also missing: fitsb L s -> no ErrTooLong
-   (see props/C20.v).  The correspondence harness (family parse) and the oracle holds_parse_c01 cover exactly
-   this gap on the real code: model = code on every case, code = Whatwg.interp whenever fitsb holds.
+(* (c2) Scanner-free composition: for a stream without a leading BOM, however it is tokenised, the read
+   loop fed with the fields of the tokens' lines yields the specification.  (Kept; superseded by C01_read /
+   C01_connection below, which need neither the no-BOM hypothesis nor a given tokenisation.)
      split_stable (sharp form): split_func d false = SplitTok adv tok -> forall x eof,
         split_func (d ++ x) eof = SplitTok adv tok \/
         (last tok = CR /\ hd x = LF /\ split_func (d ++ x) eof = SplitTok (S adv) (tok ++ [LF]))
@@ -130,6 +129,55 @@ Theorem C01_tokens_partial :
     fold_fields on_retry (negb on_retry) stop (fields_of LS) (end_err tl e) (mkrl last_id [] [] false) 0
     = firstn' stop (vis on_retry (interp (mode_for on_retry) last_id stream e)).
 Proof. exact tokens_interp. Qed.
+
+(* (c3) Which token a Scan call cuts and when it reports ErrTooLong, for every reader script (second pass over
+   bufio.Scanner.Scan, with the invariant B = max(cap(buf), maxTokenSize)): the token is splitFunc's answer on a
+   prefix of at most B bytes of the unconsumed input (all of it once the reader has ended); ErrTooLong exactly
+   when the first B bytes are buffered and splitFunc says "more" on them; else the input is exhausted. *)
+Theorem C01_scan_which :
+  forall B st s r, sc_inv B s r -> sc_inv2 B s -> scan_post2 B st s r (scan parser_split st s r).
+Proof. exact scan_spec2. Qed.
+
+(* (d1) parser_fields, the glue that was missing: from the initial parser of either entry point, for every reader
+   script whose groups fit the limit, Parser.Next hands out exactly the fields of lines LS and then returns false
+   with Parser.Err() = the end condition of the unterminated rest tl, where (LS, tl) interpret - in every mode
+   with the dirty-dispatch rule, from every initial ID - to Whatwg.interp of the concatenated stream.  A leading
+   BOM is removed iff no CR/LF byte was skipped before the first token (the wrapper around splitFunc in
+   parser.New); the specification strips it iff it starts the stream - the two agree (strip_bom_tok). *)
+Theorem C01_parser_fields :
+  forall en bc chunks e, ending_ok e -> fitsb (bound_of en bc) (concat chunks) = true ->
+    exists LS tl, pf_run (make_parser en bc (mkrd chunks e 0)) (fields_of LS) (end_err tl e) /\
+                  spec_lines (concat chunks) e LS tl.
+Proof. exact parser_fields. Qed.
+
+(* (d2) END TO END.  For every buffer configuration, every reader script (= every segmentation of the byte stream
+   into reads, byte-at-a-time included), every ending that is not "read error io.EOF", every stop position:
+   when every group fits the limit (fitsb, the strict reading: a group is counted from the first terminator byte of
+   the blank line that ended the previous group up to and including the first terminator byte of the blank line
+   that ends it; the rest after the last group must be shorter than the limit), the MODEL of sse.Read - Scanner +
+   splitFunc + FieldParser + Parser + read() - yields exactly the specification's events and end condition cut
+   after the refused event, and ends normally (no panic, no fuel exhaustion).  The right-hand side does not
+   mention the chunks except through their concatenation: segmentation independence.  Streams with a leading
+   BOM are included. *)
+Theorem C01_read :
+  forall bc chunks e stop, ending_ok e -> fitsb (bound_of EntryRead bc) (concat chunks) = true ->
+    fst (read_run EntryRead bc [] chunks e stop)
+    = (firstn' stop (vis false (interp gosse_read [] (concat chunks) e)), EndNormal).
+Proof. exact read_run_read_nil. Qed.
+
+(* the same for Connection.read: retry notifications visible, clean end reported as io.EOF, any initial last event ID *)
+Theorem C01_connection :
+  forall bc last_id chunks e stop, ending_ok e -> fitsb (bound_of EntryConn bc) (concat chunks) = true ->
+    fst (read_run EntryConn bc last_id chunks e stop)
+    = (firstn' stop (vis true (interp gosse_conn last_id (concat chunks) e)), EndNormal).
+Proof. exact read_run_conn. Qed.
+
+(* both entry points, any initial ID (read() itself) *)
+Theorem C01_read_any_id :
+  forall en bc last_id chunks e stop, ending_ok e -> fitsb (bound_of en bc) (concat chunks) = true ->
+    fst (read_run en bc last_id chunks e stop)
+    = (firstn' stop (vis (en_conn en) (interp (mode_for (en_conn en)) last_id (concat chunks) e)), EndNormal).
+Proof. exact read_run_fits. Qed.
 
 (* ---- non-vacuity ------------------------------------------------------------------------------------------ *)
 Definition ex_a : bytes := [100;97;116;97;58;32;97]%N.                 (* "data: a" *)
@@ -142,6 +190,16 @@ Example C01_ex_model_is_spec :
   fst (fst (read_run EntryConn (mkbc false 0 0) [] (map (fun b => [b]) ex_stream) CleanEOF None))
   = interp gosse_conn [] ex_stream CleanEOF /\
   interp gosse_conn [] ex_stream CleanEOF = [YEv (mkev [] [] [97%N]); YErr EUnexpectedEOF].
+Proof. vm_compute. repeat split. Qed.
+
+(* C01_read's hypotheses are satisfiable and its two sides are what they should be, on a stream with a leading BOM
+   cut inside the BOM and inside CR LF, with a limit of 16 bytes: the BOM is not part of the field name *)
+Definition ex_bom_chunks : list bytes := [[239; 187]; [191] ++ ex_a ++ [13]; [10; 13; 10] ++ ex_a ++ [10; 10]]%N.
+Example C01_ex_read_bom :
+  fitsb (bound_of EntryRead (mkbc false 0 16)) (concat ex_bom_chunks) = true /\
+  fst (read_run EntryRead (mkbc false 0 16) [] ex_bom_chunks CleanEOF None)
+  = ([YEv (mkev [] [] [97%N]); YEv (mkev [] [] [97%N])], EndNormal) /\
+  interp gosse_read [] (concat ex_bom_chunks) CleanEOF = [YEv (mkev [] [] [97%N]); YEv (mkev [] [] [97%N])].
 Proof. vm_compute. repeat split. Qed.
 
 (* line_step on a data line and on the dispatching blank line *)
